@@ -226,9 +226,12 @@ def correspondence(ctx):
     import corr_md
     a = corr_html.run(ctx, ctx.n(1500, 30000))
     b = corr_md.run(ctx, ctx.n(1200, 25000))
-    return {"evaluations": a["evaluations"] + b["evaluations"], "disagreements": (a["disagreements"] + b["disagreements"])[:20],
-            "parts": {"HTML renderer model": a["evaluations"], "Markdown renderer model": b["evaluations"]},
-            "samples": a.get("samples", []) + b.get("samples", [])}
+    import corr_rst
+    c = corr_rst.run(ctx, ctx.n(1200, 25000))
+    return {"evaluations": a["evaluations"] + b["evaluations"] + c["evaluations"],
+            "disagreements": (a["disagreements"] + b["disagreements"] + c["disagreements"])[:20],
+            "parts": {"HTML renderer model": a["evaluations"], "Markdown renderer model": b["evaluations"], "RST renderer model": c["evaluations"]},
+            "samples": a.get("samples", []) + b.get("samples", []) + c.get("samples", [])}
 
 
 def oracle(ctx, extra):
